@@ -195,7 +195,7 @@ func coqDest(d string) string {
 
 // coqRle: run-length encoded content, without scope annotations (the case files open N_scope:
 // annotated literals make their elaboration five times slower)
-func coqRle(b []byte) string {
+func c06CoqRle(b []byte) string {
 	r := lib.ToRle(b)
 	s := make([]string, len(r))
 	for i, x := range r {
@@ -211,7 +211,7 @@ func coqNode(n hNode) string {
 	case "link":
 		return "(RLink " + coqDest(n.Dest) + ")"
 	}
-	return "(RFile " + coqRle(n.Data) + ")"
+	return "(RFile " + c06CoqRle(n.Data) + ")"
 }
 
 func coqTree(t hTree) string {
@@ -661,7 +661,7 @@ func runHealCase(c *Ctx, hc *healCase, idx int) error {
 			run.Final = final
 			switch {
 			case cls != "ok":
-				run.Oracle = fmt.Sprintf("Validate with an archive healer returned %s: %s", cls, firstLine(msg))
+				run.Oracle = fmt.Sprintf("Validate with an archive healer returned %s: %s", cls, c06FirstLine(msg))
 			default:
 				// every entry of the signed build is present with the signed content (extra entries may stay)
 				var miss []string
@@ -681,7 +681,7 @@ func runHealCase(c *Ctx, hc *healCase, idx int) error {
 					}
 					run.Oracle = "healing returned nil but the build is not restored: " + strings.Join(miss, "; ")
 				} else if cls2, msg2 := lib.WithDeadline(60*time.Second, func() error { return pwr.AssertValid(target, sig) }); cls2 != "ok" {
-					run.Oracle = fmt.Sprintf("AssertValid after healing: %s: %s", cls2, firstLine(msg2))
+					run.Oracle = fmt.Sprintf("AssertValid after healing: %s: %s", cls2, c06FirstLine(msg2))
 				}
 			}
 			if run.Oracle == "" && isValid {
@@ -740,7 +740,7 @@ func runHealCase(c *Ctx, hc *healCase, idx int) error {
 	return nil
 }
 
-func firstLine(s string) string {
+func c06FirstLine(s string) string {
 	if i := strings.Index(s, "\n"); i >= 0 {
 		s = s[:i]
 	}
@@ -788,7 +788,7 @@ func healCoq(hc *healCase, sig *pwr.SignatureInfo, runs []healRun) string {
 		l = append(l, "(LK "+coqPath(x.Path)+" "+coqDest(x.Dest)+")")
 	}
 	for _, x := range sig.Container.Files {
-		f = append(f, "(FL "+coqPath(x.Path)+" "+coqRle(hc.Signed[x.Path].Data)+")")
+		f = append(f, "(FL "+coqPath(x.Path)+" "+c06CoqRle(hc.Signed[x.Path].Data)+")")
 	}
 	var outs []string
 	seen := map[string]bool{}
